@@ -115,11 +115,12 @@ def match_bool(s: str, pos: int) -> int:
 
 
 def matchbool(c: Cursor) -> bool | None:
-    if (p := match_bool(c.textstr, c.pos)) is None:
+    # NOTE: match_bool() signals failure with -1, and a non-empty string is always true
+    if (p := match_bool(c.textstr, c.pos)) < 0:
         return None
     i = c.pos
     c.goto(p)
-    return bool(c.textstr[i:p].capitalize())
+    return c.textstr[i:p].capitalize() == 'True'
 
 
 def match_uint(s: str, pos: int) -> int:
